@@ -39,6 +39,22 @@ def strip(d):
     return d
 
 
+def assigned_value(d, depth=0):
+    """d with every assignment used as a value (`(p = f()) != 0`) replaced by its left operand: in a condition the value of
+    `p = e` is p, and the store itself is an event of its own placed before the test."""
+    if depth > 12:
+        return d
+    if isinstance(d, list):
+        return [assigned_value(x, depth + 1) for x in d]
+    if not isinstance(d, dict):
+        return d
+    if d.get('k') == 'bin' and d.get('op') == '=' and isinstance(d.get('l'), dict):
+        return assigned_value(d['l'], depth + 1)
+    if not any(isinstance(v, (dict, list)) for v in d.values()):
+        return d
+    return {k: (assigned_value(v, depth + 1) if isinstance(v, (dict, list)) else v) for k, v in d.items()}
+
+
 def basename(name):
     """Readable name: library names lose namespaces and the template arguments of their class,
     but keep the template arguments of the function itself (holds_alternative<X> != <Y>)."""
@@ -927,6 +943,8 @@ def _drop_iter_conv(d, depth=0):
 
 def norm_cond(prog, d, depth=0):
     """Normalise a condition descriptor into (atom descriptor, polarity)."""
+    if depth == 0 and isinstance(d, dict) and any(x.get('k') == 'bin' and x.get('op') == '=' for x in walk(d)):
+        d = assigned_value(d)
     a, p = _norm_cond_raw(prog, d, depth)
     if depth == 0 and isinstance(a, dict) and 'iterator' in dstr(a):
         a = _drop_iter_conv(a)
